@@ -35,6 +35,7 @@ def gen_cases(tier, seed):
         a, b = rng.choice(nodes), rng.choice(nodes)
         cases.append({"forest": f, "a": [a[0], a[1]], "b": [b[0], b[1]], "cls": rng.choice(["any", "light", "mixin"]),
                       "how": rng.choice(["direct", "history"]), "seed": i})
+    gen.sprinkle_adv(cases)
     meta = {"rule": "every ordered forest with <= %d nodes x every ordered pair of nodes (same tree and different trees); "
                     "classes rotate, a fifth of the forests is reached through a mutation history; then %d random pairs in "
                     "larger forests. non-trivial = the two nodes differ; distinct by (forest, pair)" % (full, nrand),
